@@ -87,6 +87,7 @@ def check(run):
     rawlines(run, p, fc)
     tmpcfg(run, p, rt, fc)
     emptycontent(run, p, fc)
+    sameguide(run, p, fc)
 
 
 def cmdfiles(run, p, fc):
@@ -301,3 +302,25 @@ def emptycontent(run, p, fc):
                                                'used as a bare condition (%s): an empty value is treated as absent' % norm(hits[0].test if hasattr(hits[0], 'test') else hits[0])[:60]),
                fn=f, node=hits[0] if hits else None)
     run.floor('C15-EMPTY', n, 2)
+
+
+def sameguide(run, p, fc):
+    from ..mirror import blocks_of
+    run.rule('C15-SAMEGUIDE', 'the two post-processed files differ only where the comparison found unexcused differences: they are '
+                              'written in one block by write_file calls that take their end-of-file newline from one and the same '
+                              'guide expression (two different guides make the files differ in their last line)')
+    f = fc.methods['add_failures']
+    n = 0
+    for b in blocks_of(f.node):
+        guides = []
+        for s in b:
+            if isinstance(s, ast.Expr) and isinstance(s.value, ast.Call) and isinstance(s.value.func, ast.Attribute) and s.value.func.attr == 'write_file':
+                g = [k.value for k in s.value.keywords if k.arg == 'guide']
+                if g:
+                    guides.append((s, g[0]))
+        if len(guides) >= 2:
+            n += 1
+            texts = {norm(g) for s, g in guides}
+            run.ob('C15-SAMEGUIDE', '%s::%s::line%s' % (f.rel, f.short, ''), len(texts) == 1,
+                   '%d post-processed files written with guide %s' % (len(guides), ' / '.join(sorted(texts))), fn=f, node=guides[0][0])
+    run.floor('C15-SAMEGUIDE', n, 1)
